@@ -1111,6 +1111,9 @@ class Evaluator:
 
                     if isinstance(tgt.target, FuncInfo):
                         kwargs = self._kwargs(n)
+                        if tgt.target.is_classmethod and isinstance(recv, Ref):
+                            # Class.method(...): the class itself is bound to the first parameter
+                            return self.call_funcinfo(tgt.target, [recv, *args], kwargs)
                         return self.call_funcinfo(tgt.target, args, kwargs)
                 raise NotEvaluable(f"call not evaluable: {ast.unparse(n)[:80]}")
             if isinstance(recv, list):
